@@ -791,3 +791,64 @@ def rule_program_kind(check):
             ty = core_type(e.get("ty") or "")
             ok = (v == ["Script"] and ty.endswith("Stmt")) or (v == ["Module"] and cn == "ModuleItem::Stmt")
             check.expect(ok, R, "%s/insert/%s" % (R, v[0] if v else "?"), hir.loc(n), "inserts a statement into the %s body" % (v[0] if v else "?"), "visit_mut_program inserts %s into a %s" % (cn or ty, v))
+
+
+def rule_optchain_lowering(check):
+    R = "OPTCHAIN-LOWERING"
+    check.rule(R, "an optional chain is lowered to `(t = <optional part>, t == null ? undefined : <rest>)`: loose equality with the null literal, `undefined` when short-circuited, the lowered chain otherwise, evaluated after the assignments")
+    prog = check.prog
+    pv = Prov(prog)
+    f = prog.fn("OptChainTransform::to_dd_cond_expr")
+    conds = [n for n in hir.walk(f.body) if n.get("k") == "Struct" and (n["res"].get("path") or "").endswith("CondExpr")]
+    check.floor(R, "CondExpr constructions", len(conds), 1)
+    for n in conds:
+        flds = {x["name"]: x["e"] for x in n["fields"]}
+        # test
+        to = pv.origins(f, flds["test"])
+        tnode = None
+        for r, p in to:
+            if r[0] == "ctor" and r[1].endswith("Expr::Bin"):
+                call = prog.by_def[r[2]].by_id(r[3])
+                lit = [x for x in hir.walk(call) if x.get("k") == "Struct" and (x["res"].get("path") or "").endswith("BinExpr")]
+                tnode = lit[0] if lit else None
+        ok_test = False
+        if tnode is not None:
+            bf = {x["name"]: hir.peel(x["e"]) for x in tnode["fields"]}
+            op_ok = (bf["op"].get("res", {}).get("ctor_path") or "").endswith("BinaryOp::EqEq")
+            right_null = any((_ctor_name(x) or "").endswith("Lit::Null") for x in hir.walk(bf["right"]))
+            lo = pv.origins(f, [x["e"] for x in tnode["fields"] if x["name"] == "left"][0])
+            left_tmp = any(r[0] == "ctor" and r[1].endswith("Expr::Ident") for r, p in lo)
+            ok_test = op_ok and right_null and left_tmp
+        check.expect(ok_test, R, R + "/test", hir.loc(n), "test = <temp> == null", "the short-circuit test is not `<temp> == null`")
+        co = pv.origins(f, flds["cons"])
+        und = False
+        for r, p in co:
+            if r[0] == "ctor" and r[1].endswith("Expr::Ident"):
+                call = prog.by_def[r[2]].by_id(r[3])
+                for x in hir.walk(call):
+                    l = hir.local_of(x)
+                    if l:
+                        init = f.bindings()[l[0]]["origin"][1]
+                        if init is not None and "undefined" in [y["lit"]["v"] for y in hir.walk(init) if y.get("k") == "Lit"]:
+                            und = True
+        check.expect(und, R, R + "/cons", hir.loc(n), "short-circuit value = undefined", "the short-circuited value is not the identifier `undefined`")
+        ao = pv.origins(f, flds["alt"])
+        check.expect(all(r[0] == "param" and r[2] == 0 for r, p in ao) and bool(ao), R, R + "/alt", hir.loc(n), "otherwise: the lowered chain", "the non-null branch is not the lowered chain expression")
+    pushes = [x for x in hir.calls_in(f.body, name="push") if (hir.place(hir.call_args(x)[0]) or "").endswith(".assignments")]
+    seqs = [x for x in hir.walk(f.body) if x.get("k") == "Struct" and (x["res"].get("path") or "").endswith("SeqExpr")]
+    ok = len(pushes) == 1 and len(seqs) == 1 and pushes[0]["id"] < seqs[0]["id"]
+    if ok:
+        ex = [x["e"] for x in seqs[0]["fields"] if x["name"] == "exprs"][0]
+        chain = []
+        y = hir.peel(ex)
+        while y.get("k") == "MethodCall":
+            chain.append(y["method"])
+            y = hir.peel(y["recv"])
+        ok = chain == ["collect", "map", "iter_mut"] and (hir.place(y) or "").endswith(".assignments")
+    check.expect(ok, R, R + "/sequence", hir.loc(f.rec), "sequence = assignments in order, conditional last", "the lowered sequence is not [assignments.., conditional] in order")
+    # guards: nothing is lowered unless an optional part was extracted
+    nm = [x for x in hir.calls_in(f.body, name="not_modified")]
+    for x in nm:
+        atoms = gate.atoms_at(f, x)
+        ok = any(a[0] == "compound" for a in atoms) or any(a[0] == "call" and a[1] in ("is_empty", "is_none") and a[4] is True for a in atoms)
+        check.expect(ok, R, R + "/not-modified", hir.loc(x), "not modified when nothing was extracted", "to_dd_cond_expr reports not-modified under other conditions")
